@@ -7,6 +7,8 @@
 //!                | {"op":"again","src":i,"manifest":...}               evaluate the thunk of the latest load of i again
 //!                | {"op":"call","src":i,"args":{name: code}}           evaluate, then call with named args
 //!                | {"op":"gc"} | {"op":"max_stack","s":N} ] }
+//!        eval / again / call requests may carry "hold_gc": true: Program::gc() runs between the
+//!        evaluation and the manifestation, while only the returned Value is held
 
 use std::collections::HashMap;
 
@@ -149,6 +151,10 @@ pub fn run(case: &J) -> J {
                 }
                 let f = program.value_to_thunk(&value);
                 value = program.eval_call(&f, &[], &named, &mut cb)?;
+            }
+            if req.get("hold_gc").and_then(|h| h.as_bool()).unwrap_or(false) {
+                // a collection while the caller holds nothing but the request's value
+                program.gc();
             }
             match manifest.as_str() {
                 "multi" => Ok(J::String(program.manifest_json(&value, true)?)),
